@@ -567,7 +567,11 @@ func runWorker(c *Check, tier string, seed int64, w int, logdir string, jobs <-c
 		}
 		cmd.Stdout = ef
 		cmd.ExtraFiles = []*os.File{outw}
-		cmd.Env = append(os.Environ(), "VERIF_WORKER="+strconv.Itoa(w))
+		// every scratch directory of the worker lives under the run's log directory, which the
+		// coordinator removes at the end even if a worker dies
+		wtmp := filepath.Join(logdir, fmt.Sprintf("tmp-w%d", w))
+		os.MkdirAll(wtmp, 0o755)
+		cmd.Env = append(os.Environ(), "VERIF_WORKER="+strconv.Itoa(w), "TMPDIR="+wtmp)
 		if c.Race {
 			cmd.Env = append(cmd.Env, "GORACE=halt_on_error=0 log_path="+filepath.Join(logdir, "race"))
 		}
